@@ -504,14 +504,31 @@ def rule_len(env, shared):
             if PURE.get(callee_model_key(c)) == "Option::map_or" and len(t["args"]) == 3:
                 if "try_get_len" in fmt(ev.operand(hctx, t["args"][0])):
                     mapor_default = unref(ev.operand(hctx, t["args"][1]))
-        for hb2 in bodies:
-            ctx = env.ctx(hb2, None, None)
+        # a helper that has_more hands the length to (`HasMore::from_remaining_len(self.try_get_len())`) is part of it: it is
+        # judged in the activation has_more calls it in, closures included
+        pairs = [(hb2, env.ctx(hb2, None, None), None) for hb2 in bodies]
+        for bi, t, c in hb.calls():
+            if hb.blocks[bi]["cleanup"] or not any("try_get_len" in fmt(ev.operand(hctx, a)) for a in t["args"]):
+                continue
+            nctx = ev.callee_ctx(hctx, bi)
+            if nctx is None:
+                continue
+            pairs.append((nctx.body, nctx, None))
+            for bj, t2, c2 in nctx.body.calls():
+                if PURE.get(callee_model_key(c2)) == "Option::map_or" and len(t2["args"]) == 3 \
+                        and "try_get_len" in fmt(ev.operand(nctx, t2["args"][0])):
+                    mapor_default = unref(ev.operand(nctx, t2["args"][1]))
+            for cl in F.closures_of.get(nctx.body.def_, []):
+                cctx, _cbb = env.closure_ctx(nctx, cl)
+                if cctx is not None:
+                    pairs.append((cl, cctx, list(getattr(cctx, "entry_facts", ()) or ())))
+        for (hb2, ctx, entry) in pairs:
             for bi, blk in enumerate(hb2.blocks):
                 for s in blk["stmts"]:
                     if s["k"] == "assign" and s["rv"]["k"] == "aggregate" and s["rv"].get("ak") == "adt" \
                             and s["rv"]["adt"].endswith("HasMore"):
                         vn = s["rv"]["variant_name"]
-                        fs = block_facts(ev, ctx, bi) + (env.creation_facts(hb2, ctx) if hb2.is_closure else [])
+                        fs = block_facts(ev, ctx, bi) + (env.creation_facts(hb2, ctx) if (hb2.is_closure and entry is None) else [])
                         agg = ev.rvalue(ctx, s["rv"])
                         if vn == "Maybe":
                             good["Maybe"] = any(f[0] == "is_some" and f[2] is False and "try_get_len" in fmt(f[1]) for f in fs) \
